@@ -69,10 +69,11 @@ def make_least_squares(S, trace, symbolic, n_evals=1, jac=False, fail_at=None, f
             f = fun(x)
             trace.evals.append({"x": x, "f": f})
         n, p = len(f), len(x0)
-        J = np.empty((n, p), dtype=object if symbolic else float)
-        for i in range(n):
-            for j in range(p):
-                J[i, j] = S.named(f"J_{i}_{j}") if jac else 0.0
+        J = np.zeros((n, p), dtype=object if (symbolic and jac) else float)
+        if jac:
+            for i in range(n):
+                for j in range(p):
+                    J[i, j] = S.named(f"J_{i}_{j}")
         if symbolic and jac:
             J = J.view(SArr)
         return OptimizeResult(x=x, fun=f, jac=J, nfev=n_evals, njev=1, optimality=S.named("optimality") if jac else 0.0, message="stub", status=1, success=True, cost=None)
